@@ -606,6 +606,9 @@ class IMMachine(FormatMachine):
                     m["cells"].setdefault(variant, {}).setdefault(arch, []).append(iid)
         return m
 
+    def model_from_observation(self, obs):
+        return self.model_from_expected(None, obs)
+
     def rebind(self, s):
         s.pool = {}
         if s.tainted:
